@@ -24,6 +24,7 @@ import (
 type callResult struct {
 	Val      interface{}
 	Err      bool
+	ErrText  string // the error's text: part of the outcome, and as much a function of the input as the value
 	ValWithE string // non-empty: an error came together with a usable (non-nil, non-empty) value
 }
 
@@ -43,11 +44,14 @@ func nonEmpty(v interface{}) bool {
 
 func mkResult(name string, v interface{}, err error) callResult {
 	r := callResult{Val: v, Err: err != nil}
+	if err != nil {
+		r.ErrText = err.Error()
+	}
 	if err != nil && nonEmpty(v) {
 		r.ValWithE = fmt.Sprintf("%s returned the error %q together with a usable value of type %T", name, err.Error(), v)
 	}
 	if err != nil {
-		r.Val = nil // only error-ness is compared between runs
+		r.Val = nil // error-ness and the error's text are compared between runs
 	}
 	return r
 }
@@ -58,7 +62,7 @@ var entryPoints = map[string]func(b []byte) callResult{
 	"version.Parse": func(b []byte) callResult {
 		v, err := version.Parse(string(b))
 		if err != nil {
-			r := callResult{Err: true}
+			r := callResult{Err: true, ErrText: err.Error()}
 			if v != (version.Version{}) {
 				r.ValWithE = fmt.Sprintf("version.Parse returned the error %q together with the usable value %#v (it prints as %q)", err.Error(), v, v.String())
 			}
@@ -110,7 +114,7 @@ var entryPoints = map[string]func(b []byte) callResult{
 		var c deb.Control
 		err := control.Unmarshal(&c, bytes.NewReader(b))
 		if err != nil {
-			return callResult{Err: true}
+			return callResult{Err: true, ErrText: err.Error()}
 		}
 		return callResult{Val: c}
 	},
@@ -179,6 +183,21 @@ func checkParserInput(c ParserInput, r *Recorder) error {
 	if r1.Err != r2.Err || !reflect.DeepEqual(r1.Val, r2.Val) {
 		return errf("%s is not deterministic on %q (with %d other inputs parsed in between): %+v / err=%v vs %+v / err=%v", c.EP, clip(c.Input), len(c.Between), r1.Val, r1.Err, r2.Val, r2.Err)
 	}
+	if r1.ErrText != r2.ErrText {
+		return errf("%s reports different errors for the same input %q (with %d other inputs parsed in between): %q, then %q", c.EP, clip(c.Input), len(c.Between), r1.ErrText, r2.ErrText)
+	}
+	if c.Src == "big" {
+		// large inputs are where work gets split up: a few more rounds
+		for k := 0; k < 4; k++ {
+			rk, err := callGuarded(c.EP, c.Input)
+			if err != nil {
+				return errf("call %d: %v (input %q)", k+3, err, clip(c.Input))
+			}
+			if r1.Err != rk.Err || r1.ErrText != rk.ErrText || !reflect.DeepEqual(r1.Val, rk.Val) {
+				return errf("%s is not deterministic on %q (%d bytes; call %d): err=%v %q vs err=%v %q", c.EP, clip(c.Input), len(c.Input), k+3, r1.Err, r1.ErrText, rk.Err, rk.ErrText)
+			}
+		}
+	}
 	return nil
 }
 
@@ -218,8 +237,80 @@ func genValidFor(t *rapid.T, ep string) string {
 	}
 }
 
+var soupTokens = []string{"(", ")", "[", "]", "<", ">", "{", "}", "${", "=", "==", ">=", "<<", ",", ";", ":", "|", "!", "-", "--", "~", "+", ".", "  ", " ", "\t", "#", "*", "0", "1:", "-1", "a", "any", "all", "urgency", "\n ", "\n", "/", "%", "\"", ":-)", "(x", "x)"}
+
+// slotSoup replaces one or two WORDS of a valid input (maximal runs between the delimiters of the
+// formats) by a short soup of the formats' own tokens, or glues such a soup to the word's front or
+// back: damage at the joints of the grammar - the value of an option, a name in a list, the text
+// in front of a closing bracket - rather than at a random byte.
+func slotSoup(t *rapid.T, v string) string {
+	const delims = " \t\r\n,;:|()[]<>{}=$!"
+	type span struct{ a, b int }
+	var words []span
+	for i := 0; i < len(v); {
+		if strings.IndexByte(delims, v[i]) >= 0 {
+			i++
+			continue
+		}
+		j := i
+		for j < len(v) && strings.IndexByte(delims, v[j]) < 0 {
+			j++
+		}
+		words = append(words, span{i, j})
+		i = j
+	}
+	soup := func() string {
+		var sb strings.Builder
+		for k := rapid.IntRange(1, 3).Draw(t, "soupN"); k > 0; k-- {
+			sb.WriteString(rapid.SampledFrom(soupTokens).Draw(t, "soupTok"))
+		}
+		return sb.String()
+	}
+	if len(words) == 0 {
+		return v + soup()
+	}
+	for k := rapid.IntRange(1, 2).Draw(t, "slots"); k > 0; k-- {
+		wi := rapid.IntRange(0, len(words)-1).Draw(t, "slot")
+		w := words[wi]
+		if w.b > len(v) || w.a > w.b {
+			break
+		}
+		var repl string
+		switch rapid.IntRange(0, 3).Draw(t, "slotHow") {
+		case 0:
+			repl = soup()
+		case 1:
+			repl = soup() + v[w.a:w.b]
+		case 2:
+			repl = v[w.a:w.b] + soup()
+		default:
+			repl = soup() + v[w.a:w.b] + soup()
+		}
+		v = v[:w.a] + repl + v[w.b:]
+		// later words have moved: only earlier ones stay addressable
+		words = words[:wi]
+		if len(words) == 0 {
+			break
+		}
+	}
+	return v
+}
+
+// minimalUnit: the smallest complete unit of the formats that come in long sequences.
+var minimalUnit = map[string]string{
+	"control.ParseBinaryIndex":      "Package: a\nVersion: 1\nInstalled-Size: 1\nSize: 2\n\n",
+	"control.ParseSourceIndex":      "Package: a\nVersion: 1\nBinary: a\n\n",
+	"ParagraphReader.All":           "A: 1\nB: 2\n\n",
+	"control.ParseControl":          "Package: a\nArchitecture: any\nDepends: b (>= 1)\n\n",
+	"dependency.Parse":              "a (>= 1) [amd64] <x>, ",
+	"changelog.Parse":               "a (1) u; urgency=low\n\n  * x\n\n -- A <a@b.c>  Thu, 01 Jan 1970 00:00:00 +0000\n\n",
+	"dependency.ParseArchitectures": "amd64 ",
+}
+
 func genParserInput(t *rapid.T, ep string) ParserInput {
-	switch rapid.IntRange(0, 20).Draw(t, "src") {
+	switch rapid.IntRange(0, 22).Draw(t, "src") {
+	case 21, 22:
+		return ParserInput{EP: ep, Input: []byte(slotSoup(t, genValidFor(t, ep))), Src: "mutated"}
 	case 20:
 		// sizes locked to the 4096-byte I/O buffer: the whole input, or its last line, is exactly
 		// 4096*k (-1, +0, +1) bytes long, with and without a final newline
@@ -290,7 +381,44 @@ func genParserInput(t *rapid.T, ep string) ParserInput {
 		if n > 4000 {
 			n = 4000
 		}
-		return ParserInput{EP: ep, Input: []byte(strings.Repeat(v+sep, n)), Src: "big"}
+		if unit, ok := minimalUnit[ep]; ok && rapid.Bool().Draw(t, "bigMinimal") {
+			// thousands of small units rather than dozens of large ones
+			v, sep = unit, ""
+			n = rapid.IntRange(min(1000, 65536/len(v)), 65536/len(v)).Draw(t, "bignMin")
+		}
+		big := []byte(strings.Repeat(v+sep, n))
+		if rapid.Bool().Draw(t, "bigDamaged") {
+			// two to four units damaged in different ways, far apart: which complaint comes first
+			// is a matter of the input
+			unit := len(v) + len(sep)
+			for k, d := rapid.IntRange(2, 4).Draw(t, "bigd"), 0; d < k; d++ {
+				at := rapid.IntRange(0, n-1).Draw(t, "bigAt") * unit
+				span := big[at : at+len(v)]
+				switch rapid.IntRange(0, 3).Draw(t, "bigHow") {
+				case 0: // a digit becomes a letter
+					for i := len(span) - 1; i >= 0; i-- {
+						if span[i] >= '0' && span[i] <= '9' {
+							span[i] = "x!_~("[d%5]
+							break
+						}
+					}
+				case 1: // the first digit does
+					for i := 0; i < len(span); i++ {
+						if span[i] >= '0' && span[i] <= '9' {
+							span[i] = "?)$[>"[d%5]
+							break
+						}
+					}
+				case 2:
+					if i := bytes.IndexByte(span, ':'); i >= 0 {
+						span[i] = ';'
+					}
+				default:
+					span[rapid.IntRange(0, len(span)-1).Draw(t, "bigPos")] = "(<[$,|"[d%6]
+				}
+			}
+		}
+		return ParserInput{EP: ep, Input: big, Src: "big"}
 	default:
 		v := genValidFor(t, ep)
 		// line-level and byte-level mutations
@@ -337,7 +465,7 @@ func genParserInput(t *rapid.T, ep string) ParserInput {
 
 var specC18Total = Register(&Spec[ParserInput]{
 	Prop: "C18", Name: "total",
-	Rule: "for each of 13 parser entry points (version.Parse; dependency.Parse / ParseArch / ParseArchitectures; ParagraphReader.All; ParseDsc, ParseChanges, ParseControl, ParseBinaryIndex, ParseSourceIndex, Unmarshal(&deb.Control); changelog.Parse / ParseOne) inputs from that parser's own grammar generator (4/20), line- and byte-level mutations (delete, duplicate, join, swap lines; one field repeated under lower- and upper-case spellings of its name) and truncations of them (14/20), raw bytes, or a valid input with a line-start marker ('#', '-', '/*', '$Id$', blank, '.', NUL ...) put in front of, behind or inside it with and without a line end (1/21), a valid input repeated up to 64 KiB (1/21), and inputs whose total length or last-line length is exactly 4096*k-1, 4096*k or 4096*k+1 with and without a final newline (1/21). Oracle: the call returns within 60 s without panicking; when it returns an error no pointer/slice/map result is non-nil and non-empty and a struct result (version.Parse) is the zero value; a second call - made after 0..2 other generated inputs (often failing ones) went through the same entry point - gives a deeply equal value and the same error-ness. Non-trivial: grammar-derived input (valid, mutated or big); distinct by (entry point, bytes).",
+	Rule:  "for each of 13 parser entry points (version.Parse; dependency.Parse / ParseArch / ParseArchitectures; ParagraphReader.All; ParseDsc, ParseChanges, ParseControl, ParseBinaryIndex, ParseSourceIndex, Unmarshal(&deb.Control); changelog.Parse / ParseOne) inputs from that parser's own grammar generator (4/20), line- and byte-level mutations (delete, duplicate, join, swap lines; one field repeated under lower- and upper-case spellings of its name) and truncations of them (14/22), one or two words of a valid input replaced by / glued to a soup of 1..3 tokens of the formats' own punctuation (2/22), raw bytes, or a valid input with a line-start marker ('#', '-', '/*', '$Id$', blank, '.', NUL ...) put in front of, behind or inside it with and without a line end (1/21), a valid input - or the format's smallest unit, 1000 times and more - repeated up to 64 KiB, in half of the cases with two to four copies damaged in different ways (1/22), and inputs whose total length or last-line length is exactly 4096*k-1, 4096*k or 4096*k+1 with and without a final newline (1/21). Oracle: the call returns within 60 s without panicking; when it returns an error no pointer/slice/map result is non-nil and non-empty and a struct result (version.Parse) is the zero value; a second call - made after 0..2 other generated inputs (often failing ones) went through the same entry point - gives a deeply equal value, the same error-ness and the same error text (big inputs: four more calls). Non-trivial: grammar-derived input (valid, mutated or big); distinct by (entry point, bytes).",
 	Check: checkParserInput,
 })
 
@@ -435,7 +563,7 @@ func checkConc(c ConcCase, r *Recorder) error {
 
 var specC18Race = Register(&Spec[ConcCase]{
 	Prop: "C18", Name: "race",
-	Rule: "batches of generated inputs over all 13 entry points (C18/total generator, without the 64 KiB class) are first evaluated sequentially, then by 32 goroutines each walking the batch in its own order, in a binary built with -race. Oracle: every concurrent result deeply equals the sequential one and the race detector reports nothing. Evaluations = calls made; non-trivial: every batch; distinct by batch.",
+	Rule:  "batches of generated inputs over all 13 entry points (C18/total generator, without the 64 KiB class) are first evaluated sequentially, then by 32 goroutines each walking the batch in its own order, in a binary built with -race. Oracle: every concurrent result deeply equals the sequential one and the race detector reports nothing. Evaluations = calls made; non-trivial: every batch; distinct by batch.",
 	Check: checkConc,
 })
 
